@@ -14,6 +14,7 @@ type bodyPath struct {
 	Blocks map[*ssa.BasicBlock]bool
 	Order  []*ssa.BasicBlock
 	Exit   bool
+	ExitTo *ssa.BasicBlock // first block outside the loop (nil when the path ends inside, e.g. a return in the body)
 }
 
 // naturalLoop returns the blocks of the natural loop(s) with the given header.
@@ -60,19 +61,19 @@ func (p *Prog) loopBodyPaths(header *ssa.BasicBlock) ([]bodyPath, bool) {
 		on[b] = true
 		order = append(order, b)
 		defer delete(on, b)
-		finish := func(exit bool, g2 []Guard) {
+		finish := func(exit bool, g2 []Guard, to *ssa.BasicBlock) {
 			bl := map[*ssa.BasicBlock]bool{}
 			for _, x := range order {
 				bl[x] = true
 			}
-			out = append(out, bodyPath{Guards: append([]Guard(nil), g2...), Blocks: bl, Order: append([]*ssa.BasicBlock(nil), order...), Exit: exit})
+			out = append(out, bodyPath{Guards: append([]Guard(nil), g2...), Blocks: bl, Order: append([]*ssa.BasicBlock(nil), order...), Exit: exit, ExitTo: to})
 		}
 		next := func(s *ssa.BasicBlock, g2 []Guard) {
 			switch {
 			case s == header:
-				finish(false, g2)
+				finish(false, g2, nil)
 			case !loop[s]:
-				finish(true, g2)
+				finish(true, g2, s)
 			case on[s]:
 				ok = false // inner loop
 			default:
@@ -80,7 +81,7 @@ func (p *Prog) loopBodyPaths(header *ssa.BasicBlock) ([]bodyPath, bool) {
 			}
 		}
 		if len(b.Succs) == 0 {
-			finish(true, gs) // return / panic inside the loop
+			finish(true, gs, nil) // return / panic inside the loop
 			return
 		}
 		if iff, isIf := b.Instrs[len(b.Instrs)-1].(*ssa.If); isIf && len(b.Succs) == 2 && b.Succs[0] != b.Succs[1] {
